@@ -7,6 +7,11 @@ COMMON_NOTE = (
 )
 
 META: dict[str, dict[str, str]] = {
+    "C05": {
+        "level": "Decides the structural necessary conditions: every list/set .remove() in the package is guarded or covered by a recorded invariant (so formulating an aligned model cannot raise for any spin), the alignment PoolSums range over create_spin_range(s) of the rotated state's own spin with the matching Wigner-D j and index, create_spin_range runs -s..s in unit steps, and the DPD Wigner-d factors are wired to consistent outer states. Does not decide aligned == unaligned intensity.",
+        "note": "Invariant table for two remove() sites (reason recorded per entry)." + COMMON_NOTE,
+        "technique": "static analysis: dominating-guard check on remove() call sites, def-use wiring of PoolSum pools vs Wigner-D arguments, loop-shape roles",
+    },
     "C14": {
         "level": "Decides the structural necessary conditions of the substitution/equality/folding laws for every @unevaluated class (enumerated from the AST): reconstruction hooks read arguments shallowly and completely, self.args unpackings match the field lists, the hash hook covers non-SymPy fields, folded classes print through their unfolding. Universal over argument shapes because it speaks about the hook code, not about sampled instances. Does not decide the laws for arbitrary values.",
         "note": "External-API table: dataclasses.astuple/asdict/copy.deepcopy are deep; Basic.subs/xreplace dispatch to _eval_subs/_xreplace." + COMMON_NOTE,
